@@ -1,5 +1,5 @@
 """registry — which rules decide which property (and with what configuration)."""
-from rules import codec, writer, iterator, writer_abs, sizes, flow
+from rules import codec, writer, iterator, writer_abs, sizes, flow, derive
 
 RULES = {
     "R-PANIC-VINT": codec.r_panic_vint,
@@ -42,9 +42,20 @@ RULES = {
     "R-OVERRUN-ALL": flow.r_overrun_all,
     "L-BUFFER-PROGRESS": flow.r_buffer_progress,
     "R-RECOVER-STRETCH": flow.r_recover_stretch,
+    "R-DERIVE-EXPANSION": derive.r_derive_expansion,
+    "R-DERIVE-REJECTS": derive.r_derive_rejects,
 }
 
 PROPERTIES = {
+    "C18": {
+        "rules": ["R-DERIVE-EXPANSION", "R-DERIVE-REJECTS", "R-SPEC-CONSIST"],
+        "level": "translation_validation",
+        "explanation": "Translation validation of the macro expansion over a declaration corpus (fixed + seeded, both front-ends): the generated "
+                       "enum and trait methods are read as finite tables from their MIR by abstract evaluation per id class / variant and compared "
+                       "with the meaning computed from the declaration alone (never executed); one compile-fail witness with a compiling twin per "
+                       "rejection class; R-SPEC-CONSIST ties the tables to the library's 'bad specification' panics.  Not decided: declarations "
+                       "outside the corpus (the generator's own source is not analysed).",
+    },
     "C03": {
         "rules": ["R-OFFSET-BOOK", "R-TILE", "R-OFFSET", "R-DEC-CLASS", "R-DEC-RANGE"],
         "level": "other",
